@@ -512,8 +512,8 @@ class nat_norm_macro(Macro):
         self.limit = 'nat_nat_power_def_1'
 
     def eval(self, goal, pts):
-        # Simply produce the goal.
         assert len(pts) == 0, "nat_norm_macro"
+        assert self.can_eval(goal), "nat_norm_macro: normalization is not equal."
         return Thm(goal)
 
     def can_eval(self, goal):
